@@ -100,12 +100,13 @@ fn load_package(
     let mut files = Vec::new();
     let mut package_name = None;
 
+    let mut entry_file = None;
     if let Some(ast) = entry_ast {
         package_name = Some(ast.package.0.clone());
         let path = entry_path.ok_or_else(|| {
             compile_error("entry path missing when entry ast is provided".to_string())
         })?;
-        files.push(SourceFileAst {
+        entry_file = Some(SourceFileAst {
             path: path.to_path_buf(),
             ast,
         });
@@ -113,6 +114,9 @@ fn load_package(
 
     for path in read_gom_sources(package_dir)? {
         if entry_path.is_some_and(|entry| same_file(entry, &path)) {
+            // The entry file keeps its place in the sorted listing, so that the files of a
+            // package come in the order `check` and `build` see them in.
+            files.extend(entry_file.take());
             continue;
         }
         let src = fs::read_to_string(&path)
@@ -131,6 +135,11 @@ fn load_package(
             package_name = Some(ast.package.0.clone());
         }
         files.push(SourceFileAst { path, ast });
+    }
+
+    // An entry file that is not in the listing (an unsaved buffer) comes first.
+    if let Some(entry_file) = entry_file {
+        files.insert(0, entry_file);
     }
 
     let Some(name) = package_name else {
